@@ -18,6 +18,7 @@ type hline struct {
 }
 
 func (g *Gen) genC07() {
+	g.exhOneShot("C07", "hl")
 	r := g.r
 	n := g.budget(2500, 80000)
 	for i := 0; i < n; i++ {
@@ -149,6 +150,7 @@ func (g *Gen) genC07() {
 // ---------------------------------------------------------------- C08
 
 func (g *Gen) genC08() {
+	g.exhOneShot("C08", "fl")
 	r := g.r
 	n := g.budget(3000, 100000)
 	pad := "X-Pad: 1234567890\r\n\r\n"
@@ -312,6 +314,7 @@ func checkNA(bb []byte, e *NAExp, c *sipsp.PFromBody, h int) string {
 }
 
 func (g *Gen) genC09() {
+	g.exhOneShot("C09", "na")
 	r := g.r
 	n := g.budget(2500, 80000)
 	for i := 0; i < n; i++ {
@@ -773,6 +776,7 @@ func swapCase(s string) string {
 type pitem struct{ name, val string; hasVal bool }
 
 func (g *Gen) genC17() {
+	g.exhOneShot("C17", "tp")
 	r := g.r
 	n := g.budget(3000, 100000)
 	for i := 0; i < n; i++ {
